@@ -107,6 +107,8 @@ def corpus():
                   batch=[("A", 0, 0, 2), ("F", 0, 0), ("D", 0, 0), ("P", 0)]))
     c.append(dict(kind="CON", dttl=60, dmax=2, nids=2, nkeys=3, ops=[("E", 0, 5), ("A", 0, 0, 1), ("A", 0, 1, 2), ("T", 6)],
                   batch=[("S", 0), ("F", 0, 0), ("A", 0, 2, 3), ("D", 0, 1)]))
+    c.append(dict(kind="CON", dttl=60, dmax=3, nids=2, nkeys=3, ops=[("A", 0, 0, 1), ("A", 0, 1, 2)],
+                  batch=[("D", 0, 0), ("D", 0, 0), ("D", 0, 0), ("A", 0, 0, 3)]))
     c.append(dict(kind="BG", dttl=60, dmax=2, nids=1, nkeys=3, ops=[
         ("A", 0, 0, 1), ("T", 59), ("F", 0, 0), ("T", 70), ("F", 0, 0), ("T", 130), ("F", 0, 0)]))
     c.append(dict(kind="BG", dttl=60, dmax=3, nids=1, nkeys=3, ops=[
@@ -442,9 +444,38 @@ def run(ck):
                      "concurrent cache operations crash the process: %s in %s\n%s" % (
                          m.group(0) if m else "test failed", fn.group(1) if fn else "?", slog[:600]),
                      replay={"stress": "TestVerifC28Stress", "log": slog[:3000]})
+    # ---- same-key races: Delete vs Delete vs Add, Delete vs sweep, listener counting per stored entry
+    rj = os.path.join(ck.work, "race.json")
+    rc, rlog = vf.run_bin(binp, "^TestVerifC28Race$", {"VERIF_ROUNDS": "2500" if quick else "30000", "VERIF_OUT": rj}, timeout=300)
+    raced = False
+    if rc != 0 or not os.path.exists(rj):
+        m = re.search(r"fatal error: [^\n]*", rlog)
+        ck.violation("concurrent-crash:race", "same-key race run did not complete: %s\n%s" % (m.group(0) if m else "test failed", rlog[:800]),
+                     replay={"race": "TestVerifC28Race", "log": rlog[:3000]}, found_input=bool(m))
+        raced = bool(m)
+    else:
+        race = json.load(open(rj))
+        ck.cov["same_key_race"] = {k: race[k] for k in ("rounds", "notifications", "deletes_true", "entries_notified_twice")}
+        kinds = {}
+        for f in race["findings"]:
+            kinds.setdefault(f["kind"], []).append(f)
+        for kind, fs in kinds.items():
+            raced = True
+            what = {"evicted-twice": "an entry removed once was reported to the eviction listener more than once",
+                    "delete-true-twice": "more concurrent Delete calls returned true than entries were stored under the key"}[kind]
+            ck.violation("concurrent-" + kind, "%s (%d cases in %d rounds of racing Delete/Delete/Add resp. Delete/sweep on one key), "
+                         "e.g. %s" % (what, len(fs), race["rounds"], fs[0]["detail"]),
+                         replay={"race": "TestVerifC28Race", "rounds": race["rounds"], "findings": fs[:5]})
     for a in unlocked:
-        if crashed:
+        if crashed or raced:
             break
+        if a["ident"].startswith("second critical section"):
+            ck.violation("split-critical-section:%s" % a["func"],
+                         "%s acquires cacheLock more than once (%s:%d): what it decides in one critical section is applied in "
+                         "another, so the operation is not atomic and the model (one atomic step per operation) no longer "
+                         "corresponds to the code; no failing interleaving was found by the race run"
+                         % (a["func"], a["file"], a["line"]), replay={"access": a}, found_input=False)
+            continue
         ck.violation("unlocked-access:%s" % a["func"],
                      "%s accesses %s outside a cacheLock critical section (%s:%d); the atomicity that the theorems rely on "
                      "is not established" % (a["func"], a["ident"], a["file"], a["line"]),
